@@ -917,6 +917,16 @@ add("C01", "hive parser reads COLLECT_SET as AnyValue (printed FIRST) while Arra
     '        "COLLECT_SET": exp.ArrayUniqueAgg.from_arg_list,', '        "COLLECT_SET": exp.AnyValue.from_arg_list,', "C01.e")
 add("C01", "benign: COLLECT_SET printed by a bespoke lambda", "sqlglot/generators/hive.py",
     '        exp.ArrayUniqueAgg: rename_func("COLLECT_SET"),', '        exp.ArrayUniqueAgg: lambda self, e: self.func("COLLECT_SET", e.this),', "silent")
+add("C01", "T-SQL date-part alias m normalised in two steps (m -> mm -> month)", "sqlglot/parsers/tsql.py",
+    '    "m": "month",\n', '    "m": "mm",\n', "C01.g")
+add("C01", "revert: DuckDB maps the aliases of DAYOFWEEKISO in two steps", "sqlglot/dialects/duckdb.py",
+    '        **{k: "ISODOW" if v == "DAYOFWEEKISO" else v for k, v in Dialect.DATE_PART_MAPPING.items()},\n', '        **Dialect.DATE_PART_MAPPING,\n', "C01.g")
+add("C01", "benign: a further alias of month in the T-SQL date-part table", "sqlglot/parsers/tsql.py",
+    '    "m": "month",\n', '    "m": "month",\n    "mon": "month",\n', "silent")
+add("C01", "DuckDB parser gates the map-subscript marker at <= 1.1 while the generator switches at 1.2", "sqlglot/parsers/duckdb.py",
+    "        if self.dialect.version < (1, 2) and isinstance(bracket, exp.Bracket):", "        if self.dialect.version <= (1, 1) and isinstance(bracket, exp.Bracket):", "C01.h")
+add("C01", "benign: DuckDB parser gate written with the operands negated", "sqlglot/parsers/duckdb.py",
+    "        if self.dialect.version < (1, 2) and isinstance(bracket, exp.Bracket):", "        if not self.dialect.version >= (1, 2) and isinstance(bracket, exp.Bracket):", "silent")
 add("C01", "tsql prints TIMESTAMPNTZ as TIMESTAMP, which T-SQL reads as ROWVERSION", "sqlglot/generators/tsql.py",
     '        exp.DType.TIMESTAMPNTZ: "DATETIME2",', '        exp.DType.TIMESTAMPNTZ: "TIMESTAMP",', "C01.f")
 add("C01", "benign: tsql prints DECIMAL under its own name", "sqlglot/generators/tsql.py",
@@ -932,6 +942,10 @@ add("C13", "revert: heredoc-tag rewind keeps the advanced line", "sqlglot/tokeni
 add("C13", "revert: command text token keeps the nested scan's start", "sqlglot/tokenizer_core.py",
     "                self._start = start + len(raw) - len(raw.lstrip())\n", "", "C13.j")
 
+add("C13", "Athena parse_into drops the source text on the Trino branch", "sqlglot/parsers/athena.py",
+    "        return self._trino_parser.parse_into(expression_types, raw_tokens, sql)\n", "        return self._trino_parser.parse_into(expression_types, raw_tokens)\n", "C13.l")
+add("C13", "benign: Athena parse passes the source text by keyword", "sqlglot/parsers/athena.py",
+    "        return self._trino_parser.parse(raw_tokens, sql)\n", "        return self._trino_parser.parse(raw_tokens, sql=sql)\n", "silent")
 add("C13", "revert: number, synthesised :: and type suffix share one span", "sqlglot/tokenizer_core.py",
     "            self._start = self._current\n            self._add(TokenType.DCOLON, \"::\")\n            self._advance(len(numeric_literal))\n",
     "            self._add(TokenType.DCOLON, \"::\")\n", "C13.k")
